@@ -39,11 +39,13 @@ def gen_plan(rng, tier, sketched_only=False, prop='C16'):
   sk = 0 if alg in ('OGD', 'ADA') else rng.randrange(2, n + 1)
   T = rng.randrange(3, 14) if tier == 'quick' else rng.randrange(3, 31)
   kind = wpick(rng, [('dense', 4), ('lowrank', 4), ('zero_rows', 2),
-                     ('dup_rows', 2), ('scale_jump', 2)])
+                     ('dup_rows', 2), ('scale_jump', 2), ('tiny', 2)] + (
+                         # one feature many orders of magnitude below the others
+                         [('feature_scale', 3)] if alg in ('OGD', 'ADA') else []))
   obs = sorted(set([0] + [rng.randrange(0, T + 1) for _ in range(3)] + [T]))
   return {'system': 'oco', 'class': alg, 'x64': True, 'alg': alg,
           'shape': shape, 'sketch_size': sk,
-          'delta': pick(rng, [0.0, 1e-6, 0.1, 1.0]),
+          'delta': pick(rng, [0.0, 1e-6, 0.1, 1.0, 1e-24]),
           'lr': pick(rng, [1.0, 0.1, 0.01]), 'seq_kind': kind,
           'seq_rank': max(1, min(n, (sk - 1) if sk else n) - rng.randrange(0, 2)),
           'gseed': rng.randrange(1 << 30), 'ops': [{'op': 'STEP'}] * T,
@@ -75,6 +77,10 @@ def _sequence(plan):
         G[t] = G[t - 1]
   if kind == 'scale_jump':
     G *= (10.0 ** rng.integers(-3, 4, size=(T, 1)))
+  if kind == 'tiny':
+    G *= 10.0 ** -int(rng.integers(6, 13))
+  if kind == 'feature_scale':
+    G *= 10.0 ** -rng.integers(0, 13, size=(1, n)).astype(np.float64)
   return G
 
 
